@@ -214,7 +214,11 @@ pub fn handle(op: &str, a: &[&str]) -> Option<Resp> {
                 if s == v1.show() {
                     "same".to_string()
                 } else {
-                    if fail.is_none() {
+                    // the clause is about well-formed input: a whitespace-only continuation line is
+                    // not (C03 grammar); there the two readers differ by the documented blank-line
+                    // normalisation of C06 (lossy keeps it as an empty line, lossless drops it)
+                    let blank_cont = t.split('\n').any(|l| (l.starts_with(' ') || l.starts_with('\t')) && l.trim().is_empty());
+                    if fail.is_none() && !blank_cont {
                         fail = Some(format!("lossless reader shows a different value: {} vs {}", s, v1.show()));
                     }
                     "diff".to_string()
@@ -230,7 +234,8 @@ pub fn handle(op: &str, a: &[&str]) -> Option<Resp> {
         if let (Ok(v1), Ok(p)) = (&r1, LL::from_str(&t)) {
             let lossless_md5 = p.get("Description-md5");
             let lossy_md5 = v1.structs[0].1.iter().find(|(k, _)| k.eq_ignore_ascii_case("Description-md5")).map(|x| x.1.clone());
-            if lossless_md5 != lossy_md5 && fail.is_none() {
+            let blank_cont = t.split('\n').any(|l| (l.starts_with(' ') || l.starts_with('\t')) && l.trim().is_empty());
+            if lossless_md5 != lossy_md5 && fail.is_none() && !blank_cont {
                 fail = Some(format!(
                     "lossless Package::description_md5() reads field Description-md5 = {:?}; the lossy struct shows {:?}",
                     lossless_md5, lossy_md5
@@ -278,9 +283,15 @@ fn render_para(e: &Entries, comments: bool, rng: &mut Rng) -> String {
         }
         for l in lines {
             if l.is_empty() {
-                t.push_str(" .\n");
+                // an empty line of a value: usually the conventional ` .`, sometimes a
+                // whitespace-only continuation line (the lossy reader keeps it as an empty line)
+                t.push_str(if rng.chance(30) { " \n" } else { " .\n" });
             } else {
                 t.push_str(&format!(" {}\n", l));
+            }
+            // an indented comment line between the lines of a value
+            if comments && rng.chance(6) {
+                t.push_str(" # inside a value\n");
             }
         }
     }
